@@ -98,7 +98,10 @@ def anneal_temperature_range(model, start_flip_prob=0.5,
 
     # calculate the approximate minimum possible change in energy by flipping
     # a single bit.
-    min_del_energy = factor * min(abs(c) for k, c in model.items() if k)
+    # (a plain dict can contain explicit zero coefficients; ignore them)
+    min_del_energy = factor * min(
+        (abs(c) for k, c in model.items() if k and c), default=0
+    )
     # calculate the approximate maximum possible change in energy by flipping
     # a single bit.
     max_del_energy = factor * max(
